@@ -13,8 +13,10 @@ package pluginregistry
 //@ ghost lastValidateAccepted bool
 //@ ghost lastValidateDoc int
 
+//@ ghost lastGetPluginOK bool
 //@ iface PluginRegistry.GetPlugin(model, version) (plugin, ok)
-//@   modifies nothing
+//@   modifies lastGetPluginOK
+//@   ensures lastGetPluginOK == ok
 //@   ensures ok ==> plugin != nil
 
 //@ iface ModelPlugin.Validate(ctx, jsonData) (err)
